@@ -746,6 +746,93 @@ Definition consts_ok (k : consts) : bool :=
   && (sol_pk_size k =? 64) && (sol_sig_size k =? 65)
   && (1 <=? go_honest k) && (inact_threshold k <=? go_honest k) && (inact_sig_size k =? 65).
 
+(* ---- call histories on ONE long-lived chain handle.
+   TbtcChain is built once per node and every local member of every group calls its hash /
+   assembly methods on it.  The model of these methods is a pure function of the call's own
+   arguments and of the handle's (immutable) chain id: a history of calls is the [map] of that
+   function (Proofs/C40.v history_is_map), so EVERY field of the contract preimage decides the
+   hash of the call it is passed to, whatever was asked before. *)
+Inductive hop :=
+| HHash        (* CalculateDKGResultSignatureHash *)
+| HSign        (* pkg/tbtc dkgResultSigner.SignResult on the handle: hash + operator signature *)
+| HAssemble    (* the hash, the supporters' signatures over it and AssembleDKGResult *)
+| HClaim       (* NewClaimPreimage + CalculateInactivityClaimHash *)
+| HClaimSign   (* pkg/tbtc inactivityClaimSigner.SignClaim on the handle *)
+| HWallet.     (* CalculateWalletID *)
+Record hcall := {
+  h_op : hop;
+  h_chainid : N;        (* the chain id of the handle the call was made on *)
+  h_x : N; h_y : N;     (* group / wallet public key *)
+  h_start : N;          (* DKG start block (result calls) *)
+  h_list : list N;      (* misbehaved members as passed (result calls) / raw inactive members *)
+  h_nonce : N; h_hbf : bool   (* claim calls *)
+}.
+Definition is_result_op (o : hop) : bool :=
+  match o with HHash | HSign | HAssemble => true | _ => false end.
+Definition dummy_claim (inactive : list N) (hbf : bool) : claim :=
+  {| k_wallet := []; k_inactive := inactive; k_hbf := hbf; k_sigs := []; k_signing := [] |}.
+(* the bytes the CLIENT hashes in this call (None: error / panic) *)
+Definition call_client_preimage (c : hcall) : option bytes :=
+  match h_op c with
+  | HHash | HSign | HAssemble =>
+      client_sig_preimage (h_chainid c) (h_x c) (h_y c) (h_list c) (h_start c)
+  | HClaim | HClaimSign =>
+      client_claim_preimage (h_chainid c) (h_nonce c) (h_x c) (h_y c)
+                            (new_claim_inactive (h_list c)) (h_hbf c)
+  | HWallet => client_wallet_preimage (h_x c) (h_y c)
+  end.
+(* the bytes the CONTRACT hashes for the result / claim / wallet these arguments describe *)
+Definition call_contract_preimage (c : hcall) : option bytes :=
+  match pubkey_chain_format (h_x c) (h_y c) with
+  | None => None
+  | Some pk =>
+      Some match h_op c with
+           | HHash | HSign | HAssemble =>
+               contract_sig_preimage (h_chainid c) pk (sortN (h_list c)) (h_start c)
+           | HClaim | HClaimSign =>
+               contract_claim_preimage (h_chainid c) (h_nonce c) (wallet_x pk) (wallet_y pk)
+                                       (dummy_claim (new_claim_inactive (h_list c)) (h_hbf c))
+           | HWallet => contract_wallet_preimage pk
+           end
+  end.
+(* the handle as a state machine: its state is the log of what it answered; a step appends the
+   answer to the call and reads nothing of the log *)
+Definition handle_step (log : list (option bytes)) (c : hcall) : list (option bytes) :=
+  log ++ [call_client_preimage c].
+Definition run_history (calls : list hcall) : list (option bytes) := fold_left handle_step calls [].
+
+Definition call_validb (c : hcall) : bool :=
+  (h_x c <? two256) && (h_y c <? two256) && (h_chainid c <? two256) && (h_nonce c <? two256)
+  && (h_start c <? 2 ^ 63) && forallb (fun m => m <? 256) (h_list c)
+  && (negb (is_result_op (h_op c)) || nodupb (h_list c)).
+(* what the driver observed for one call of a history *)
+Record hobs := {
+  b_some : bool;      (* the call returned a hash / result *)
+  b_pre : bytes;      (* the driver's own encoding of the contract preimage of THIS call (for
+                         HAssemble: built from the fields of the assembled result) *)
+  b_ok : bool;        (* the hash the handle returned in THIS call = Keccak256 b_pre *)
+  b_recovers : bool;  (* HSign / HClaimSign / HAssemble: every signature made over the returned hash
+                         recovers (OZ rules) to the operator under the contract's message hash
+                         Keccak256(prefix ++ Keccak256 b_pre); true for the other calls *)
+  b_late : bool       (* the result, re-read after all later calls of the history and after the
+                         caller's argument slices were overwritten, is what it was *)
+}.
+Definition hspec_entry (e : hcall * hobs) : bool :=
+  let (c, o) := e in
+  if negb (call_validb c) then true else
+  b_some o && bytes_opt_eqb (call_contract_preimage c) (Some (b_pre o)) && b_ok o
+  && b_recovers o && b_late o.
+Definition hagree_entry (e : hcall * hobs) : bool :=
+  let (c, o) := e in
+  match call_client_preimage c with
+  | Some pre => b_some o && list_eqb pre (b_pre o) && b_ok o
+  | None => negb (b_some o)
+  end.
+Definition hspec_ok (h : list (hcall * hobs)) : bool := forallb hspec_entry h.
+Definition hagree (h : list (hcall * hobs)) : bool :=
+  forallb hagree_entry h
+  && (lenN (run_history (map fst h)) =? lenN h).
+
 Inductive case :=
 (* via_submit: through pkg/tbtc dkgResultSubmitter.SubmitResult (quorum gate), otherwise
    AssembleDKGResult directly; genuine: every signature in the map was ACCEPTED by the client,
@@ -759,7 +846,10 @@ Inductive case :=
 | CAbi (args : list aval) (packed : bytes) (own : bytes)
 (* keep-common's signer: message, and whether the 65-byte signature it produced recovers to the
    signer under Keccak256(eth_signed_preimage message) as rebuilt by the driver *)
-| CEth (msg : bytes) (pre : bytes) (recovers : bool).
+| CEth (msg : bytes) (pre : bytes) (recovers : bool)
+(* a history of calls on long-lived chain handles (one per chain id), every call with what the
+   driver observed for it *)
+| CHist (h : list (hcall * hobs)).
 
 Definition distinct_keys (m : list (N * bytes)) : bool := nodupb (map fst m).
 
@@ -778,6 +868,7 @@ Definition judge (c : case) : verdict :=
       if negb (lenN msg =? 32) then BadCase else
       decide (list_eqb (eth_signed_preimage msg) pre && recovers)
              (list_eqb (client_eth_preimage msg) pre)
+  | CHist h => if lenN h =? 0 then BadCase else decide (hspec_ok h) (hagree h)
   end.
 
 (* what --replay prints: the model's own result and the contract-side preimages *)
@@ -788,7 +879,8 @@ Inductive explanation :=
          (contract_pre : option bytes)
 | EConsts (ok : bool)
 | EAbi (model : bytes)
-| EEth (contract_pre client_pre : bytes).
+| EEth (contract_pre client_pre : bytes)
+| EHist (per_call : list (bool * option bytes * option bytes * bool)).
 Definition explain (c : case) : explanation :=
   match c with
   | CDkg p quorum via _ i o =>
@@ -815,6 +907,8 @@ Definition explain (c : case) : explanation :=
   | CConsts k => EConsts (consts_ok k)
   | CAbi args _ _ => EAbi (abi_encode args)
   | CEth msg _ _ => EEth (eth_signed_preimage msg) (client_eth_preimage msg)
+  | CHist h => EHist (map (fun e => (call_validb (fst e), call_client_preimage (fst e),
+                                     call_contract_preimage (fst e), hspec_entry e)) h)
   end.
 
 (* ------------------------------------------------------------------ Part 5: Prop reading of [valid_inb]
